@@ -227,7 +227,7 @@ def gen_instance(rnd, family):
         # buffer contents listed in an order of their own; a job located in a buffer need not be listed
         feats.add("init_placement")
         names = [e["name"] for e in ic["buffer"]]
-        targets = [names[0]] + (names[2:3] if len(names) > 2 else [])
+        targets = [names[0]]   # (a third buffer has no row in the travel matrix: nothing could leave it)
         placed = {}
         for j in range(nj):
             if rnd.random() < 0.5:
